@@ -11,12 +11,13 @@ TRUSTED = []
 
 def jobs(tier):
     import copy
-    from props import C08, C09, C19, C20
+    from props import C08, C09, C19, C20, C16
     J = seqcases.array_jobs(tier, "C12") + _C02.table_jobs(tier, "C12") + _C03.tree_jobs(tier, "C12")
     extra = [j for j in C08.jobs(tier) if "method_missing" in j.name]
     extra += [j for j in C09.jobs(tier) if "mismatch" in j.name]
     extra += [j for j in C19.jobs(tier) if re.search(r"C19\.(dealloc_nonheap|null|stack|static)\.", j.name)]
     extra += C20.jobs(tier)
+    extra += [j for j in C16.jobs(tier) if 'mem_rem' in j.name or 'stack' in j.name]
     for j in extra:
         j = copy.copy(j); j.name = "C12." + j.name; J.append(j)
     return J
